@@ -20,6 +20,12 @@ fn main() {
     if let Some(n) = arg(&args, "--threads") {
         rayon::ThreadPoolBuilder::new().num_threads(n.parse().unwrap()).build_global().unwrap();
     }
+    if args[1] == "selftest" {
+        let repo = std::env::var("VERIF_REPO").unwrap_or_else(|_| "/repo".to_string());
+        let (pass, fail) = vref::selftest::run(&repo);
+        println!("vref-selftest: pass={} fail={}", pass, fail);
+        std::process::exit(if fail == 0 { 0 } else { 2 });
+    }
     if args[1] == "replay" {
         let v: serde_json::Value = serde_json::from_str(&std::fs::read_to_string(&args[2]).unwrap()).unwrap();
         let r = if v.get("replay").is_some() { v["replay"].clone() } else { v };
